@@ -395,6 +395,80 @@ def case_inverse(log, scheme, order):
         log.path_stats(pm)
 
 
+# ---------------------------------------------------------------------------
+# construction: where the patches end vs the logarithm the matching uses
+# ---------------------------------------------------------------------------
+SR.__format__ = lambda self, spec: "<sym>"  # Atlas.__init__ logs its walls with "{w:.2e}"
+
+
+def case_construction(log, scheme):
+    """the real Couplings.__init__ with symbolic squared masses m_i and ratios r_i: the matching loop applies L_i = ln(thresholds_ratios[i]), i.e. the
+    decoupling relation at mu^2 = thresholds_ratios[i] * m_i^2 -- the patch boundary (atlas wall) the evolution stops at must be that very scale."""
+    cpl = _load()
+    log.encode(cpl.Couplings.__init__)
+    D = Decider(log)
+
+    def run():
+        from eko.quantities.couplings import CouplingEvolutionMethod, CouplingsInfo
+        from eko.quantities.heavy_quarks import QuarkMassScheme
+
+        ms = [SR.var("m2_%s" % q) for q in "cbt"]
+        rs = [SR.var("r_%s" % q) for q in "cbt"]
+        for x in ms + rs:
+            assume(x, ">0")
+        info = CouplingsInfo(alphas=0.2, alphaem=0.0075, ref=(10.0, 4), em_running=False)
+        sc = cpl.Couplings(info, (3, 0), CouplingEvolutionMethod.EXPANDED, list(ms), QuarkMassScheme[scheme], list(rs))
+        rp = (MOD, "replay_construction", {"scheme": scheme})
+        walls = sc.atlas.walls
+        ok = len(walls) == 5 and walls[0] == 0 and walls[-1] == float("inf") and len(sc.thresholds_ratios) == 3 and sc.atlas.origin[1] == 4
+        v = prove_zero(SR(0 if ok else 1), "Couplings.__init__ (%s): atlas walls are [0, three matching scales, inf], three ratios kept, reference nf kept" % scheme)
+        D(v, key="Couplings.__init__:atlas", replay=rp, sampler=_sampler)
+        if ok:
+            v = prove_zero(SR(0) + sc.atlas.origin[0] - 100, "Couplings.__init__ (%s): reference point of the atlas is mu_ref^2" % scheme)
+            D(v, key="Couplings.__init__:atlas", replay=rp, sampler=_sampler)
+            for i, q in enumerate("cbt"):
+                L = cpl.np.log(sc.thresholds_ratios[i])  # what the matching loop takes
+                v = prove_zero(SR(0) + L - cpl.np.log(rs[i]), "Couplings.__init__ (%s): logarithm used for the %s threshold is ln(ratio)" % (scheme, q))
+                D(v, key="Couplings.__init__:matching-scale", replay=rp, sampler=_sampler)
+                v = prove_zero(SR(0) + walls[i + 1] - ms[i] * sc.thresholds_ratios[i],
+                               "Couplings.__init__ (%s): the %s patch boundary is the scale ratio*m^2 whose logarithm ln(ratio) the decoupling relation is applied with" % (scheme, q))
+                D(v, key="Couplings.__init__:matching-scale", replay=rp, sampler=_sampler)
+        log.twin("domain")
+        log.collect_ctx()
+
+    _r, pm = explore(run)
+    log.path_stats(pm)
+
+
+def replay_construction(point, scheme):
+    """real Couplings with matching ratios != 1: a_s with nl and nl+1 flavours at mu^2 = ratio*m^2 (reference inside the nl patch) must fulfil the published
+    decoupling relation with L = ln(ratio) -- independent of where the code thinks the patch ends."""
+    import math
+
+    a = float(point.get("a", 0.02))
+    Ls = [float(point.get(k, d)) for k, d in (("Lc", 0.5), ("Lb", -0.5), ("Lt", 0.4))]
+    if not 0.008 <= a <= 0.0285 or any(abs(x) > 1.39 for x in Ls):
+        return None
+    Ls = [x if abs(x) > 0.25 else 0.5 for x in Ls]
+    ratios = [math.exp(x) for x in Ls]
+    masses = [2.0, 22.0, 30000.0]
+    for order in (2, 3):
+        for nfl in (3, 4):
+            w = masses[nfl - 3] * ratios[nfl - 3]
+            # reference in the nl patch, a little below the matching scale (and above the lower one)
+            mu2_ref = 0.8 * w if nfl == 3 else max(0.8 * w, 1.1 * masses[0] * ratios[0])
+            if mu2_ref >= w:
+                continue
+            sc = _real_sc(scheme, order, nfl, mu2_ref, a, 0.0006, ratios, masses)
+            lo = float(sc.a(w, nfl)[0])
+            hi = float(sc.a(w, nfl + 1)[0])
+            want = _apply_lit(lo, scheme, nfl, "up", Ls[nfl - 3], order)
+            if abs(hi - want) > 1e-7 * abs(want):
+                return {"detail": "a_s^(%d)(mu^2)=%r and a_s^(%d)(mu^2)=%r at mu^2 = %r*m^2 do not fulfil the decoupling relation with L=ln(%r) (expected %r; %s, order %d)"
+                        % (nfl, lo, nfl + 1, hi, ratios[nfl - 3], ratios[nfl - 3], want, scheme, order)}
+    return None
+
+
 def _sampler(rng):
     return {"a": rnd(rng, 0.008, 0.028), "alpha": rnd(rng, 0.008, 0.028), "aem": rnd(rng, 0.0004, 0.0008, den=100000), "nf": Fraction(rng.randint(3, 5)),
             "Lc": rnd(rng, -1.38, 1.38), "Lb": rnd(rng, -1.38, 1.38), "Lt": rnd(rng, -1.38, 1.38), "Lq": rnd(rng, -1.38, 1.38)}
@@ -600,6 +674,7 @@ def main():
                   "tables: nf a symbolic real in [3,5]; decimal entries compared to the printed digits",
                   "RG consistency through O(a^order) (one order below the first unimplemented matching coefficient), literature beta_k and gamma_m,k with zeta3 symbolic",
                   "inverse: series in a carried one order beyond the asserted one"]
+    chk.bounds.append("construction: Couplings.__init__ with symbolic squared masses and ratios: patch boundary == ratio*m^2, the scale whose logarithm the loop applies")
     chk.out_of_claim = ["fixed-flavour evolution between thresholds (C15) and the choice of the path (C19); here the legs are replaced by a recording identity",
                         "numerical position of the thresholds (np.isclose tolerance) in real runs", "QED corrections to the decoupling (none implemented)"]
     chk.stubs = ["Couplings.compute -> recording identity (returns a copy of its input)", "thresholds_ratios -> tokens whose np.log is a free symbol",
@@ -615,6 +690,7 @@ def main():
         for order in (1, 2, 3, 4):
             chk.case("loop.%s.o%d" % (scheme, order), case_loop, scheme=scheme, order=order, routes=singles + multi)
         chk.case("continuity.%s" % scheme, case_continuity, scheme=scheme)
+        chk.case("construction.%s" % scheme, case_construction, scheme=scheme)
         for order in (2, 3, 4):
             chk.case("rg.%s.o%d" % (scheme, order), case_rg, scheme=scheme, order=order)
             chk.case("inverse.%s.o%d" % (scheme, order), case_inverse, scheme=scheme, order=order)
